@@ -16,6 +16,7 @@ types are only counted.
 import os
 import shutil
 import tempfile
+import time
 
 from hypothesis import strategies as st
 
@@ -28,10 +29,16 @@ PROP = "C26"
 LEVEL = "fault_enumeration"
 RULE = (
     "tree (Hypothesis: gen_fortran program with loops, nests, array "
-    "assignments, intrinsics, calls, IF/WHERE/SELECT, optionally pre-"
-    "transformed by 0-2 accepted 'setup' transformations; or a repository "
-    "test algorithm/kernel source; or an LFRic/GOcean PSy layer from a "
-    "repository test algorithm, dm on/off) x Hypothesis-drawn subset of the "
+    "assignments, intrinsics, calls, IF/WHERE/SELECT; or a module assembled "
+    "from a drawn subset of ~110 hand-written fragments aimed at late "
+    "refusal points (vlib/c26_pool.py: reductions, array assignments, "
+    "loops/nests, calls to inline, control flow; derived types, automatic "
+    "arrays, CodeBlocks) paired mostly with the transformation family the "
+    "fragments were written for; or a repository test algorithm/kernel "
+    "source; or an LFRic/GOcean PSy layer from a repository test algorithm, "
+    "dm on/off, mostly with the transformations written for that API; each "
+    "optionally pre-transformed by 0-3 accepted 'setup' transformations) x "
+    "Hypothesis-drawn subset of the "
     "transformation table with constructor variant and 3 option "
     "dictionaries (None / {} / documented keys with valid values / wrong "
     "types / unknown keys / non-dict) x EXHAUSTIVELY every node (region "
@@ -58,6 +65,14 @@ ASSUMPTIONS = [
     "is evaluated once per sweep on a re-built PSy object to which all "
     "refused attempts of the sweep were re-applied, and compared with the "
     "generated code of a pristine twin",
+    "LFRic PSy layers are 'warmed up' before the first snapshot: "
+    "LFRicLoop.start_expr/stop_expr and VariablesAccessInfo(root) are "
+    "evaluated once, because these read-only queries replace the loop-bound "
+    "children and create loopN_start/stop, ndf/undf/map/basis symbols on "
+    "first use (reported as known finding C26-lfric-cold, pinned by a corpus "
+    "case that uses a cold tree); the snapshot of PSyKAl trees "
+    "(vlib/c26_trans.psy_snap) covers every node attribute incl. kernel "
+    "argument objects and the kernel schedules held by CodedKern nodes",
     "CodedKern.get_kernel_schedule() caches the parsed kernel in the node: a "
     "refusal that only filled that cache is accepted when the tree equals a "
     "pristine twin with the same kernel schedules loaded (kernel schedules, "
@@ -109,6 +124,8 @@ PSY_FILES = {
               "14.10_halo_continuous_cell_w_to_r.f90",
               "15.17.1_one_reduction_one_standard_builtin.f90",
               "1.2_multi_invoke.f90", "1.1.6_face_qr.f90",
+              "1_single_invoke_w3.f90",
+              "1.1.9_single_invoke_2qr_shapes_int_field.f90",
               "4.6_multikernel_invokes.f90"],
     C.GOCEAN: ["single_invoke.f90", "single_invoke_three_kernels.f90",
                "test11_different_iterates_over_one_invoke.f90",
@@ -450,6 +467,16 @@ class Sweeper:
 
     # ---- one Hypothesis case ---------------------------------------------
     def run_case(self, case):
+        start = time.time()
+        try:
+            self._run_case(case)
+        finally:
+            key = "cpu_seconds_" + ("psykal" if case["kind"] == "psy" else
+                                    case["api"])
+            self.ctx.extra[key] = round(
+                self.ctx.extra.get(key, 0) + time.time() - start, 1)
+
+    def _run_case(self, case):
         C.reset_state()
         desc = {k: case[k] for k in ("kind", "api", "source", "file", "dm")
                 if k in case}
@@ -482,7 +509,7 @@ def run(ctx):
     os.chdir(workdir)
     try:
         ctx.hyp(sweeper.run_case, gen_cases(), key=case_key, salt=1,
-                max_examples=ctx.scale(32, 1600), shrink_budget=40)
+                max_examples=ctx.scale(16, 1200), shrink_budget=40)
         ctx.hyp(sweeper.run_case, tuned_cases(), key=case_key, salt=4,
                 max_examples=ctx.scale(64, 3200), shrink_budget=40)
         ctx.hyp(sweeper.run_case, src_cases(), key=case_key, salt=2,
@@ -604,7 +631,22 @@ def _lfric_bound_identity(case):
     return False
 
 
+def _kernel_const_partial(case):
+    """Dynamo0p3KernelConstTrans.apply makes nlayers a constant
+    (number_of_layers given) and only then finds out that the kernel's
+    quadrature is not supported (quadrature=True): the kernel's symbol
+    table stays modified."""
+    att = _last(case)
+    opts = att.get("opts")
+    return (att["t"] == "Dynamo0p3KernelConstTrans"
+            and isinstance(opts, dict) and "$nondict" not in opts
+            and bool(opts.get("number_of_layers"))
+            and bool(opts.get("quadrature")))
+
+
 CLASSIFIERS = {
+    "lfric_kernel_const_layers_then_quadrature_refusal":
+        _kernel_const_partial,
     "omp_task_collapse_detaches_loop": _omp_task_collapse,
     "lfric_loop_bound_child_recreated": _lfric_bound_identity,
     "omp_loop_reprod_symbols_before_validate": _omp_loop_reprod,
